@@ -86,6 +86,19 @@ Fixpoint lim_states_ok (run : list (option limiter * bool)) (op ob : list (optio
   | _, _, _ => false
   end.
 
+(* every float comparison replayed by the model obeys the standard model of floating-point arithmetic
+   (the hypothesis of C34_float_decision_exact_outside_band) *)
+Definition counter_run_ok (c : option counter) (limit : Z) : bool :=
+  match c with
+  | Some c => float_run_ok (total c) (interval c) limit
+  | None => true
+  end.
+Definition floats_ok (run : list (option limiter * bool)) : bool :=
+  forallb (fun x => match fst x with
+                    | Some l => counter_run_ok (packets l) (pps l) && counter_run_ok (bytesc l) (bps l)
+                    | None => true
+                    end) run.
+
 Definition last_limiter (run : list (option limiter * bool)) (l0 : option limiter) : option limiter :=
   fold_left (fun _ x => fst x) run l0.
 
@@ -173,7 +186,7 @@ Definition judge (c : case) : verdict :=
                    then prefix_agrees (spec_run exceeds_exact pps bps window [] evs) obs
                    else true in
     if negb spec_ok then VViolation
-    else if bools_eqb (map snd run) obs && lim_states_ok run obs_p obs_b
+    else if bools_eqb (map snd run) obs && lim_states_ok run obs_p obs_b && floats_ok run
             && match last_limiter run l0 with
                | Some l => opt_full_eqb (packets l) fin_p && opt_full_eqb (bytesc l) fin_b
                | None => opt_full_eqb None fin_p && opt_full_eqb None fin_b
